@@ -346,6 +346,8 @@ pub open spec fn sweep_one_pre(s: S) -> bool {
         &&& isobj(s, o) && s.objs[o].color != GcColor::Gray
         &&& (s.objs[o].live <==> !s.dropped.contains(o))
         &&& (s.sweep_prev matches Some(pv) ==> isobj(s, pv) && pv != o)
+        // debug_assert!(self.all.is_some_and(|f| f.addr_eq(sweep))) on the unlink-at-head path
+        &&& (s.sweep_prev is None ==> s.all == Some(o))
         &&& s.m.total >= 1
     }
 }
